@@ -6,6 +6,9 @@ CONSTANTS
   SkipSet = {"sync", "jump", "unknown", "unknown0", "unknownL", "byte"}
   HdrSet = {"bbox", "filets"}
   RefPolicy = "any"
+  MaskSet = {{"n", "w", "r"}, {"n"}, {"w"}, {"r"}, {"n", "w"}, {"n", "r"}, {"w", "r"}}
+  TypeResets = TRUE
+  SkipUndecoded = TRUE
   FillOnly = FALSE
   BulkN = 5
   RoleLimit = 250
